@@ -1,6 +1,9 @@
 import Cfdm.Lemmas.Append
 import Cfdm.Lemmas.AppendNames
 import Cfdm.Lemmas.AppendRead
+import Cfdm.Lemmas.AppendGrown
+import Cfdm.Lemmas.AppendSafe
+import Cfdm.Lemmas.AppendDry
 /-
 C17 — Appending preserves everything already in the dataset.
 
@@ -88,7 +91,7 @@ theorem C17_dry_run_writes_nothing (fx : Fix) {α : Type} (p : Prog α) (r : Reg
     (run fx .dry p r fs).2.2 = fs :=
   run_dry_file fx p r fs
 
-example : (run Fix.new .dry (Prog.createVar ⟨"q", [], [], 0⟩ (.pure ())) {} {}).2.2.ds.vars = [] := by
+example : (run Fix.new .dry (Prog.createVar ⟨"q", [], [], 0⟩ [] (.pure ())) {} {}).2.2.ds.vars = [] := by
   rw [C17_dry_run_writes_nothing]
 
 /-! ## Everything already in the dataset is preserved -/
@@ -96,39 +99,208 @@ example : (run Fix.new .dry (Prog.createVar ⟨"q", [], [], 0⟩ (.pure ())) {} 
 /-- non-vacuity: an append that adds a variable and a dimension to a non-empty dataset. -/
 def exE : Ds := { dims := [⟨"lat", 5, false⟩], vars := [⟨"lat", ["lat"], [], 1⟩, ⟨"q", ["lat"], [], 2⟩], gattrs := [("Conventions", "CF-1.11")] }
 def exS : FieldReq :=
-  { reqs := [.dimCoord 0 0 ⟨7, 0, [], none⟩ (some "lon") none 8 false none, .data ⟨9, 7, [], none⟩ "ua" [0] [] false] }
+  { reqs := [.dimCoord 0 0 ⟨7, 0, [], none, [8]⟩ (some "lon") none 8 false none, .data ⟨9, 7, [], none, [8]⟩ "ua" [0] [] false] }
 
 
-theorem appendFull_extends (fx : Fix) (hg : fx.globalsGuarded = true) (nc4 : Bool) (E : Ds) (rb S : List FieldReq) :
-    Extends E (appendFull fx nc4 E rb S).2.1 := by
-  unfold appendFull
-  split
-  · exact Extends.refl E
-  · split
-    · exact Extends.refl E
-    · rename_i r _ _
-      have h := run_post_inv fx hg E (emitAll fx E.gattrs S) (startPost fx E r) ⟨E, []⟩ (PostInv.init E)
-      split
-      · rename_i heq; rw [heq] at h; exact h.ext
-      · rename_i heq; rw [heq] at h; exact h.ext
+/-- The conditions under which the writer of /repo HEAD is shown to preserve the dataset: the code with the
+C17 repairs of names (`register-names`, `netcdf-name-blanks`), the guarded global-attribute sites and the
+size conjunct of the pinned-dimension reuse (none of these is an assumption about the input: each is a
+switch of the model whose other position is refuted below). -/
+structure HeadFix (fx : Fix) : Prop where
+  guarded : fx.globalsGuarded = true
+  names : fx.names = true
+  blanks : fx.blanks = true
+  pinnedSize : fx.pinnedSize = true
 
-/-- One append, patched or not, successful, refused or failed half-way: the global attributes are
-unchanged, every old variable is still there with the same dimensions, attributes and contents, every
-old dimension with the same size, and nothing added bears the name of an old variable / dimension. -/
-theorem C17_monotone (fx : Fix) (hg : fx.globalsGuarded = true) (nc4 : Bool) (E : Ds) (rb S : List FieldReq) :
+theorem headFix_new : HeadFix Fix.new := ⟨rfl, rfl, rfl, rfl⟩
+
+/-- One append, successful, refused or failed half-way: the global attributes are unchanged, every old
+variable is still there with the same dimensions, attributes and contents, every old dimension with the same
+size — *also an unlimited one, whose length netCDF would change silently if a longer array were written
+along it* —, and nothing added bears the name of an old variable / dimension.
+
+Hypotheses: the shapes of the appended constructs fit the sizes of their axes (`FieldReq.wf`, what
+`set_construct` enforces), and the dimension tables that the dry run built agree with the dataset on the
+lengths of its unlimited dimensions (`RegAgrees`, decidable; it concerns the fields read back, not the batch). -/
+theorem C17_monotone (fx : Fix) (hx : HeadFix fx) (nc4 : Bool) (E : Ds) (rb S : List FieldReq)
+    (hw : ∀ f ∈ S, f.wf) (ha : RegAgrees E (dryReg fx E rb)) :
     Extends E (append fx nc4 E rb S).2 :=
-  appendFull_extends fx hg nc4 E rb S
+  appendFull_extends fx hx.guarded hx.names hx.blanks hx.pinnedSize nc4 E rb S hw ha
 
 /-- Any sequence of appends (each given whatever the reader returns for the dataset at that time). -/
-theorem C17_monotone_sequence (fx : Fix) (hg : fx.globalsGuarded = true) (nc4 : Bool) (readBack : Ds → List FieldReq) :
-    ∀ (batches : List (List FieldReq)) (E : Ds), Extends E (appendSeq fx nc4 readBack E batches).2 := by
+theorem C17_monotone_sequence (fx : Fix) (hx : HeadFix fx) (nc4 : Bool) (readBack : Ds → List FieldReq)
+    (ha : ∀ E, RegAgrees E (dryReg fx E (readBack E))) :
+    ∀ (batches : List (List FieldReq)) (E : Ds), (∀ S ∈ batches, ∀ f ∈ S, f.wf) →
+      Extends E (appendSeq fx nc4 readBack E batches).2 := by
   intro batches
   induction batches with
-  | nil => intro E; exact Extends.refl E
+  | nil => intro E _; exact Extends.refl E
   | cons S rest ih =>
-    intro E
+    intro E hw
     simp only [appendSeq]
-    exact (C17_monotone fx hg nc4 E (readBack E) S).trans (ih _)
+    exact (C17_monotone fx hx nc4 E (readBack E) S (hw S (by simp)) (ha E)).trans
+      (ih _ (fun S' hS => hw S' (List.mem_cons_of_mem _ hS)))
+
+/-- Without any hypothesis on the registry or on the decisions of the writer — for *every* program of the
+post-dry-run pass — the old dataset is preserved up to the length of its unlimited dimensions: this is all
+that netCDF itself guarantees, and it is not the property (a longer record dimension pads every old variable
+on it). -/
+theorem C17_preserved_up_to_record_length (fx : Fix) (hg : fx.globalsGuarded = true) (nc4 : Bool) (E : Ds) (rb S : List FieldReq) :
+    ExtendsGrown E (append fx nc4 E rb S).2 :=
+  appendFull_grown fx hg nc4 E rb S
+
+/-! ### The length of an existing dimension
+
+A dataset with a record dimension `obs` (unlimited, no coordinate variable, 4 records) and a variable on it;
+the appended field has an axis that names `obs`, is unlimited, has no coordinate either — and 6 records. -/
+
+def exObs : Ds := { dims := [⟨"obs", 4, true⟩, ⟨"lat", 3, false⟩], vars := [⟨"lat", ["lat"], [], 1⟩, ⟨"ta", ["obs", "lat"], [], 2⟩],
+                    gattrs := [("Conventions", "CF-1.11")] }
+def exObsField (n cid : Nat) (nm : Name) : FieldReq :=
+  { reqs := [.axisDim 0 n true "obs" [] true, .dimCoord 0 1 ⟨1, 0, [], none, [3]⟩ (some "lat") (some "lat") 3 false none,
+             .data ⟨cid, 7, [], none, [n, 3]⟩ nm [0, 1] [] false] }
+
+/-- non-vacuity of `C17_monotone`: the hypotheses hold for this append, which goes through … -/
+example : HeadFix Fix.new ∧ (∀ f ∈ [exObsField 6 3 "tb"], f.wf) ∧ RegAgrees exObs (dryReg Fix.new exObs [exObsField 4 2 "ta"]) := by
+  refine ⟨headFix_new, by decide, by decide⟩
+
+/-- … the code of HEAD gives the appended field a record dimension of its own … -/
+example : (append Fix.new true exObs [exObsField 4 2 "ta"] [exObsField 6 3 "tb"]) =
+    (.ok, { exObs with dims := exObs.dims ++ [⟨"obs_1", 6, true⟩], vars := exObs.vars ++ [⟨"tb", ["obs_1", "lat"], [], 3⟩] }) := by
+  decide
+
+/-- … and shares `obs` when the lengths agree (the only case in which it may). -/
+example : (append Fix.new true exObs [exObsField 4 2 "ta"] [exObsField 4 3 "tb"]) =
+    (.ok, { exObs with vars := exObs.vars ++ [⟨"tb", ["obs", "lat"], [], 3⟩] }) := by
+  decide
+
+/-- The size conjunct of the pinned-dimension reuse cannot be weakened to "an unlimited axis may use an
+unlimited dimension of that name whatever its length": the append succeeds, `obs` — and with it the old
+variable `ta` — now has 6 records, and the result does not extend the dataset. -/
+theorem C17_weakened_pinned_reuse_grows_dimension :
+    let out := append { Fix.new with pinnedSize := false } true exObs [exObsField 4 2 "ta"] [exObsField 6 3 "tb"]
+    out.1 = .ok ∧ out.2.dims = [⟨"obs", 6, true⟩, ⟨"lat", 3, false⟩] ∧ ¬ Extends exObs out.2 := by
+  refine ⟨by decide, by decide, ?_⟩
+  intro h
+  obtain ⟨nd, hd, _⟩ := h.dims
+  have h2 : (append { Fix.new with pinnedSize := false } true exObs [exObsField 4 2 "ta"] [exObsField 6 3 "tb"]).2.dims
+      = [⟨"obs", 6, true⟩, ⟨"lat", 3, false⟩] := by decide
+  rw [h2] at hd
+  have : exObs.dims = [⟨"obs", 4, true⟩, ⟨"lat", 3, false⟩] := rfl
+  rw [this] at hd
+  cases nd with
+  | nil => simp at hd
+  | cons _ _ => simp at hd
+
+/-- … and with fewer records than the dataset has, the new variable is put on `obs` and has the dataset's 4
+records, not its own 2 (nothing old changes: it is the "one new field equal to the appended one" clause
+that fails). -/
+theorem C17_weakened_pinned_reuse_shorter_field :
+    (append { Fix.new with pinnedSize := false } true exObs [exObsField 4 2 "ta"] [exObsField 2 3 "tb"]) =
+    (.ok, { exObs with vars := exObs.vars ++ [⟨"tb", ["obs", "lat"], [], 3⟩] }) := by
+  decide
+
+/-- The hypothesis `RegAgrees` cannot be dropped: if the table built by the dry run says that `obs` has 6
+records (here: because the fields "read back" are not those of the dataset; in cfdm: when the dry run has
+re-allocated the name to another dimension — open finding `dry-run-registry-names-not-in-dataset`), the size
+test of HEAD passes and the dimension grows all the same. -/
+theorem C17_registry_must_agree :
+    let out := append Fix.new true exObs [exObsField 6 2 "ta"] [exObsField 6 3 "tb"]
+    ¬ RegAgrees exObs (dryReg Fix.new exObs [exObsField 6 2 "ta"]) ∧ out.1 = .ok ∧ out.2.dims = [⟨"obs", 6, true⟩, ⟨"lat", 3, false⟩] := by
+  refine ⟨by decide, by decide, by decide⟩
+
+/-- With the proposed repair of the dry run (C17-append-dry-run-names; and d714c80, which /repo has) the hypothesis
+on the dry run's tables follows from a statement about the *reader* alone: every field read back reports, for
+each netCDF dimension name it carries (axis, coordinate variable, bounds dimension), the length that
+dimension has in the dataset (`FieldReq.faithful`, decidable), and has data shapes that fit its axes.  The
+dry run then registers exactly those names with those sizes (proved request by request, like the post pass),
+and every outcome of the append preserves the dataset. -/
+structure ProposedFix (fx : Fix) : Prop where
+  head : HeadFix fx
+  dryNames : fx.dryNames = true
+  dimCoordName : fx.dimCoordName = true
+
+theorem proposedFix_new : ProposedFix Fix.new := ⟨headFix_new, rfl, rfl⟩
+
+theorem C17_monotone_from_reader (fx : Fix) (hx : ProposedFix fx) (nc4 : Bool) (E : Ds) (rb S : List FieldReq)
+    (hw : ∀ f ∈ S, f.wf) (hwr : ∀ f ∈ rb, f.wf) (hfr : ∀ f ∈ rb, f.faithful E) :
+    Extends E (append fx nc4 E rb S).2 :=
+  appendFull_extends_faithful fx hx.head.guarded hx.head.names hx.head.blanks hx.head.pinnedSize hx.dryNames hx.dimCoordName
+    nc4 E rb S hw hwr hfr
+
+theorem C17_monotone_sequence_from_reader (fx : Fix) (hx : ProposedFix fx) (nc4 : Bool) (readBack : Ds → List FieldReq)
+    (hr : ∀ E, ∀ f ∈ readBack E, f.wf ∧ f.faithful E) :
+    ∀ (batches : List (List FieldReq)) (E : Ds), (∀ S ∈ batches, ∀ f ∈ S, f.wf) →
+      Extends E (appendSeq fx nc4 readBack E batches).2 := by
+  intro batches
+  induction batches with
+  | nil => intro E _; exact Extends.refl E
+  | cons S rest ih =>
+    intro E hw
+    simp only [appendSeq]
+    exact (C17_monotone_from_reader fx hx nc4 E (readBack E) S (hw S (by simp)) (fun f hf => (hr E f hf).1) (fun f hf => (hr E f hf).2)).trans
+      (ih _ (fun S' hS => hw S' (List.mem_cons_of_mem _ hS)))
+
+/-- non-vacuity: the field read back from `exObs` is faithful and well-formed. -/
+example : (∀ f ∈ [exObsField 4 2 "ta"], f.wf) ∧ (∀ f ∈ [exObsField 4 2 "ta"], f.faithful exObs) := by
+  refine ⟨by decide, by decide⟩
+
+/-- The repair of the dry run is needed for this: with the dry run as it is, fields read back that report the
+right lengths can still leave wrong tables.  The dataset has a variable `obs` (met first), and two record
+dimensions `obs` (6) and `obs_1` (4); the unpatched dry run renames the first to `obs_1` — now registered
+with 6 records — and the second to `obs_1_1`; an appended field with 6 records whose axis names `obs_1`
+passes the size test of HEAD and makes the real `obs_1` two records longer.  The patched dry run registers
+`obs` and `obs_1` as they are and the field gets a dimension of its own. -/
+def exRen : Ds := { dims := [⟨"obs", 6, true⟩, ⟨"obs_1", 4, true⟩],
+                    vars := [⟨"obs", [], [], 1⟩, ⟨"q", ["obs"], [], 2⟩, ⟨"p", ["obs_1"], [], 3⟩] }
+def exRenRead : List FieldReq :=
+  [{ reqs := [.data ⟨1, 7, [], none, []⟩ "obs" [] [] false] },
+   { reqs := [.axisDim 0 6 true "obs" [] true, .data ⟨2, 7, [], none, [6]⟩ "q" [0] [] false] },
+   { reqs := [.axisDim 0 4 true "obs_1" [] true, .data ⟨3, 7, [], none, [4]⟩ "p" [0] [] false] }]
+def exRenNew : FieldReq := { reqs := [.axisDim 0 6 true "obs_1" [] true, .data ⟨4, 7, [], none, [6]⟩ "u" [0] [] false] }
+
+theorem C17_unpatched_dry_run_defeats_size_test :
+    (∀ f ∈ exRenRead, f.wf ∧ f.faithful exRen) ∧
+    (append { Fix.new with dryNames := false } true exRen exRenRead [exRenNew]).2.dims = [⟨"obs", 6, true⟩, ⟨"obs_1", 6, true⟩] ∧
+    (append Fix.new true exRen exRenRead [exRenNew]).2.dims = [⟨"obs", 6, true⟩, ⟨"obs_1", 4, true⟩, ⟨"obs_1_1", 6, true⟩] := by
+  refine ⟨by decide, by decide, by decide⟩
+
+/-- Nor can `FieldReq.wf`: a data array with more records than its axis says (which `set_data` refuses). -/
+theorem C17_shapes_must_fit :
+    let bad : FieldReq := { reqs := [.axisDim 0 4 true "obs" [] true, .data ⟨3, 7, [], none, [6]⟩ "tb" [0] [] false] }
+    ¬ bad.wf ∧ (append Fix.new true exObs [exObsField 4 2 "ta"] [bad]).2.dims = [⟨"obs", 6, true⟩, ⟨"lat", 3, false⟩] := by
+  refine ⟨by decide, by decide⟩
+
+/-- The axis branch of `_write_field_or_domain` on its own (an axis without dimension coordinate), from any
+state of the pass in which the tables agree with the dataset: whatever dimension the axis is given — one
+stored with an equal spanning construct at the same position, the registered dimension it names, or a new
+one — if that is an unlimited dimension of the dataset then it has exactly the length of the axis. -/
+theorem C17_axis_dimension_has_axis_length (fx : Fix) (hb : fx.blanks = true) (hp : fx.pinnedSize = true) (E : Ds) (sz : Nat → Nat)
+    (axis size : Nat) (unlim : Bool) (base : Name) (spanning : List (Nat × Nat × Nat)) (pinned : Bool) (hsz : sz axis = size)
+    (r : Reg) (fs : FileSt) (hr : RInv E sz r) (hI : PostInv E fs) :
+    let out := run fx .post (emitReq fx (.axisDim axis size unlim base spanning pinned)) r fs
+    PostInv E out.2.2 ∧ (out.1 = .ok () → ∀ d, lookup out.2.1.aux.axisDim axis = some d → DimFits E d size) := by
+  have h := triple_axisDim hb hp axis size unlim base spanning pinned (by simpa [Req.wf] using hsz) r fs hr hI
+  revert h
+  cases run fx .post (emitReq fx (.axisDim axis size unlim base spanning pinned)) r fs with
+  | mk res rest =>
+    cases rest with
+    | mk r' fs' =>
+      cases res with
+      | ok a =>
+        intro h
+        refine ⟨h.2, fun _ d hd => ?_⟩
+        have := h.1.safe (axis, d) (lookup_mem hd)
+        rw [hsz] at this; exact this
+      | error e => intro h; exact ⟨h, fun hc => by cases hc⟩
+
+example : RInv exObs (fun _ => 4) { nm := { names := ["lat", "ta", "obs"], dimSize := [("obs", 4), ("lat", 3)] }, aux := { unlimDims := ["obs"] } } := by
+  refine ⟨⟨?_, by simp, by simp, by simp⟩, by decide, by intro p hp; simp at hp⟩
+  intro n hn
+  have : exObs.names = ["lat", "ta", "obs", "lat"] := by decide
+  rw [this] at hn
+  simp [NameReg.existing, NameReg.dimKeys] at *
+  rcases hn with rfl | rfl | rfl | rfl <;> simp
 
 /-- non-vacuity: two successive appends, the second one refused (a featureType on a dataset without one);
 both leave `lat` and `q` in place. -/
@@ -139,9 +311,16 @@ example : (appendSeq Fix.new true (fun _ => []) exE [[exS], [{ reqs := [], featu
   decide
 
 /-- In particular the global attributes after any sequence of appends are those of the dataset. -/
-theorem C17_globals_unchanged (fx : Fix) (hg : fx.globalsGuarded = true) (nc4 : Bool) (readBack : Ds → List FieldReq) (batches : List (List FieldReq)) (E : Ds) :
-    (appendSeq fx nc4 readBack E batches).2.gattrs = E.gattrs :=
-  (C17_monotone_sequence fx hg nc4 readBack batches E).gattrs
+theorem C17_globals_unchanged (fx : Fix) (hg : fx.globalsGuarded = true) (nc4 : Bool) (readBack : Ds → List FieldReq) :
+    ∀ (batches : List (List FieldReq)) (E : Ds), (appendSeq fx nc4 readBack E batches).2.gattrs = E.gattrs := by
+  intro batches
+  induction batches with
+  | nil => intro E; rfl
+  | cons S rest ih =>
+    intro E
+    simp only [appendSeq]
+    rw [ih]
+    exact (C17_preserved_up_to_record_length fx hg nc4 E (readBack E) S).gattrs
 
 /-- The guard is what the theorem rests on.  `_set_external_variables` is one of the guarded sites: an
 appended field with an external cell measure `areacello` makes the pass call
@@ -150,11 +329,11 @@ appended field with an external cell measure `areacello` makes the pass call
 def exExt : Ds := { dims := [⟨"lat", 5, false⟩], vars := [⟨"lat", ["lat"], [], 1⟩, ⟨"q", ["lat"], [("cell_measures", "area: areacella")], 2⟩],
                     gattrs := [("Conventions", "CF-1.11"), ("external_variables", "areacella")] }
 def exExtRead : List FieldReq :=
-  [{ reqs := [.dimCoord 0 0 ⟨1, 0, [], none⟩ (some "lat") none 5 false none, .msr 1 ⟨5, 3, [], none⟩ [0] "areacella" "area" (some "areacella"),
-              .data ⟨2, 7, [], none⟩ "q" [0] [] false] }]
+  [{ reqs := [.dimCoord 0 0 ⟨1, 0, [], none, [5]⟩ (some "lat") none 5 false none, .msr 1 ⟨5, 3, [], none, []⟩ [0] "areacella" "area" (some "areacella"),
+              .data ⟨2, 7, [], none, [5]⟩ "q" [0] [] false] }]
 def exExtNew : FieldReq :=
-  { reqs := [.dimCoord 0 0 ⟨1, 0, [], none⟩ (some "lat") none 5 false none, .msr 1 ⟨6, 3, [], none⟩ [0] "areacello" "area" (some "areacello"),
-             .data ⟨9, 7, [], none⟩ "ta" [0] [] false] }
+  { reqs := [.dimCoord 0 0 ⟨1, 0, [], none, [5]⟩ (some "lat") none 5 false none, .msr 1 ⟨6, 3, [], none, []⟩ [0] "areacello" "area" (some "areacello"),
+             .data ⟨9, 7, [], none, [5]⟩ "ta" [0] [] false] }
 
 example : (append Fix.new true exExt exExtRead [exExtNew]).1 = .ok ∧
           (append Fix.new true exExt exExtRead [exExtNew]).2.gattrs = exExt.gattrs ∧
@@ -183,14 +362,14 @@ theorem C17_names_fresh (fx : Fix) (hn : fx.names = true) (hb : fx.blanks = true
     intro n hm
     simp only [startPost, hn, if_true, NameReg.existing]
     exact List.mem_append.mpr (Or.inl (List.mem_append.mpr (Or.inr hm)))
-  have h := run_names_inv fx hb .post E p (startPost fx E r) fs h0
+  have h := run_names_inv fx hb E p (startPost fx E r) fs h0
   exact ⟨h.fresh, h.nodup⟩
 
 /-- non-vacuity, and the behaviour it rules out: the dataset has a variable `domain` that the dry run
 never meets (it is not read back as a field).  The patched pass names the new variable `domain_1`; the
 code as it was asks netCDF for a second `domain` and fails half-way. -/
 def exDom : Ds := { vars := [⟨"domain", [], [], 1⟩] }
-def exNew : FieldReq := { reqs := [.data ⟨9, 7, [], none⟩ "domain" [] [] false] }
+def exNew : FieldReq := { reqs := [.data ⟨9, 7, [], none, []⟩ "domain" [] [] false] }
 
 example : (append Fix.new true exDom [] [exNew]) = (.ok, { vars := [⟨"domain", [], [], 1⟩, ⟨"domain_1", [], [], 9⟩] }) := by
   decide
@@ -199,24 +378,59 @@ theorem C17_old_unregistered_name_clash :
     (append { Fix.new with names := false } true exDom [] [exNew]).1 = .failed (.nameInUse "domain") := by
   decide
 
-/-- What `C17_names_fresh` cannot give (open finding `dry-run-registry-names-not-in-dataset`, no small
-patch): the registry is built by re-encoding the fields read back, in the reader's order, not from the
-dataset.  Here a data variable called `bounds2` is met before the bounds dimension `bounds2`, so the dry
-run registers the bounds dimension as `bounds2_1`, which the dataset does not have; the appended
-coordinate's bounds are then put on it and netCDF refuses the variable half-way. -/
+/-- A dimension coordinate that has neither a netCDF variable name nor a standard name is named after the
+netCDF dimension of its axis.  The code as it was before d714c80 used that name *as it is* (it is the one name that does not
+go through `_netcdf_name`): when the dataset already has a dimension of that name — any field that came from
+the same producer — netCDF refuses the dimension and the append fails half-way.  Since d714c80 (the repair
+this check had proposed) the name is made unique like every other. -/
+def exAnon : Ds := { dims := [⟨"obs", 4, false⟩], vars := [⟨"obs", ["obs"], [], 1⟩, ⟨"ta", ["obs"], [], 2⟩] }
+def exAnonField (cc fc : Nat) (nm : Name) : FieldReq :=
+  { reqs := [.dimCoord 0 0 ⟨cc, 0, [], none, [4]⟩ none (some "obs") 4 false none, .data ⟨fc, 7, [], none, [4]⟩ nm [0] [] false] }
+
+theorem C17_old_dimension_name_used_as_it_is :
+    (append { Fix.new with dimCoordName := false } true exAnon [exAnonField 1 2 "ta"] [exAnonField 3 4 "tb"]).1
+      = .failed (.nameInUse "obs") ∧
+    (append Fix.new true exAnon [exAnonField 1 2 "ta"] [exAnonField 3 4 "tb"]) =
+      (.ok, { exAnon with dims := exAnon.dims ++ [⟨"obs_1", 4, false⟩],
+                          vars := exAnon.vars ++ [⟨"obs_1", ["obs_1"], [], 3⟩, ⟨"tb", ["obs_1"], [], 4⟩] }) := by
+  refine ⟨by decide, by decide⟩
+
+/-- What `C17_names_fresh` cannot give (open finding `dry-run-registry-names-not-in-dataset`): the registry is
+built by re-encoding the fields read back, in the reader's order, not from the dataset.  In the code as it
+is the dry run makes names unique *again*: here a data variable called `bounds2` is met before the bounds
+dimension `bounds2`, so the dry run registers the bounds dimension as `bounds2_1`, which the dataset does
+not have; the appended coordinate's bounds are then put on it and netCDF refuses the variable half-way.
+With the proposed repair (fixes/C17-append-dry-run-names.patch: in the dry run `_netcdf_name` registers the
+name it is asked for, which is the name the construct has in the dataset) the bounds dimension is
+registered as `bounds2` and the append goes through, sharing it. -/
 def exB : Ds :=
   { dims := [⟨"lat", 5, false⟩, ⟨"bounds2", 2, false⟩],
     vars := [⟨"bounds2", [], [], 1⟩, ⟨"lat", ["lat"], [], 2⟩, ⟨"lat_bounds", ["lat", "bounds2"], [], 3⟩, ⟨"q", ["lat"], [], 4⟩] }
 def exBread : List FieldReq :=
-  [{ reqs := [.data ⟨1, 7, [], none⟩ "bounds2" [] [] false] },
-   { reqs := [.dimCoord 0 0 ⟨2, 0, [], none⟩ (some "lat") none 5 false (some ⟨⟨3, 6, [], none⟩, 2, "bounds2", none, false⟩),
-              .data ⟨4, 7, [], none⟩ "q" [0] [] false] }]
+  [{ reqs := [.data ⟨1, 7, [], none, []⟩ "bounds2" [] [] false] },
+   { reqs := [.dimCoord 0 0 ⟨2, 0, [], none, [5]⟩ (some "lat") none 5 false (some ⟨⟨3, 6, [], none, [5, 2]⟩, 2, "bounds2", none, false⟩),
+              .data ⟨4, 7, [], none, [5]⟩ "q" [0] [] false] }]
 def exBnew : FieldReq :=
-  { reqs := [.dimCoord 0 0 ⟨20, 0, [], none⟩ (some "lon") none 8 false (some ⟨⟨30, 6, [], none⟩, 2, "bounds2", none, false⟩),
-             .data ⟨40, 7, [], none⟩ "u" [0] [] false] }
+  { reqs := [.dimCoord 0 0 ⟨20, 0, [], none, [8]⟩ (some "lon") none 8 false (some ⟨⟨30, 6, [], none, [8, 2]⟩, 2, "bounds2", none, false⟩),
+             .data ⟨40, 7, [], none, [8]⟩ "u" [0] [] false] }
 
 theorem C17_dry_run_registry_not_the_dataset :
-    (append Fix.new true exB exBread [exBnew]).1 = .failed (.noSuchDim "bounds2_1") := by
+    (append { Fix.new with dryNames := false } true exB exBread [exBnew]).1 = .failed (.noSuchDim "bounds2_1") ∧
+    (append Fix.new true exB exBread [exBnew]) =
+      (.ok, { exB with dims := exB.dims ++ [⟨"lon", 8, false⟩],
+                       vars := exB.vars ++ [⟨"bounds", ["lon", "bounds2"], [], 30⟩, ⟨"lon", ["lon"], [("bounds", "bounds")], 20⟩,
+                                            ⟨"u", ["lon"], [], 40⟩] }) := by
+  refine ⟨by decide, by decide⟩
+
+/-- The dry run of the proposed code registers, for every name it is asked for, that name (blanks replaced)
+— whatever is registered already: the names in the tables after the dry run are names that the fields read
+back carry, not names made up by the uniqueness search. -/
+theorem C17_dry_run_keeps_names (fx : Fix) (hd : fx.dryNames = true) (b : Name) (r : Reg) (fs : FileSt) :
+    (run fx .dry (allocN b) r fs).1 = .ok (underscore b) := by
+  simp [allocN, run, hd, keepName]
+
+example : (run Fix.new .dry (allocN "lat") { nm := { names := ["lat"] } } {}).1 = .ok "lat" ∧
+          (run { Fix.new with dryNames := false } .dry (allocN "lat") { nm := { names := ["lat"] } } {}).1 = .ok "lat_1" := by
   decide
 
 /-! ## Old fields are read as before -/
@@ -225,11 +439,19 @@ theorem C17_dry_run_registry_not_the_dataset :
 dimension names plus the global attributes: after an append (any outcome) every old variable has the
 same footprint, provided the dataset was self-contained and no new variable took the name of an old
 dimension (which `C17_names_fresh` excludes for names that went through `_netcdf_name`). -/
-theorem C17_old_readable (fx : Fix) (hg : fx.globalsGuarded = true) (nc4 : Bool) (E : Ds) (rb S : List FieldReq) (refsOf : Var → List Name)
+theorem C17_old_readable (fx : Fix) (hx : HeadFix fx) (nc4 : Bool) (E : Ds) (rb S : List FieldReq) (refsOf : Var → List Name)
+    (hw : ∀ f ∈ S, f.wf) (ha : RegAgrees E (dryReg fx E rb))
     (hc : Closed refsOf E) (hs : NewVarsAvoidDims E (append fx nc4 E rb S).2)
     (fuel : Nat) (v : Var) (hv : v ∈ E.vars) :
     footprint refsOf (append fx nc4 E rb S).2 fuel v = footprint refsOf E fuel v :=
-  footprint_ext refsOf (C17_monotone fx hg nc4 E rb S) hs hc fuel v hv
+  footprint_ext refsOf (C17_monotone fx hx nc4 E rb S hw ha) hs hc fuel v hv
+
+/-- The footprint of a variable includes the current length of its dimensions: with the weakened reuse rule
+the old variable `ta` of `exObs` is no longer read as it was (for every reader of the footprint). -/
+theorem C17_weakened_pinned_reuse_changes_old_footprint :
+    footprint (fun _ => []) (append { Fix.new with pinnedSize := false } true exObs [exObsField 4 2 "ta"] [exObsField 6 3 "tb"]).2 2 ⟨"ta", ["obs", "lat"], [], 2⟩
+      ≠ footprint (fun _ => []) exObs 2 ⟨"ta", ["obs", "lat"], [], 2⟩ := by
+  decide
 
 /-- … and it is still returned as a field unless a new variable refers to it (a shared *coordinate*
 gains referencers, which cannot make it a field; a *data* variable is referred to by a new variable only
@@ -238,7 +460,7 @@ theorem C17_old_still_field (fx : Fix) (hg : fx.globalsGuarded = true) (nc4 : Bo
     (v : Var) (hf : IsField refsOf E v)
     (hnew : ∀ w ∈ (append fx nc4 E rb S).2.vars, w ∉ E.vars → v.name ∉ refsOf w) :
     IsField refsOf (append fx nc4 E rb S).2 v :=
-  isField_ext refsOf (C17_monotone fx hg nc4 E rb S) v hf hnew
+  isField_grown refsOf (C17_preserved_up_to_record_length fx hg nc4 E rb S) v hf hnew
 
 example : Closed (fun _ => []) exE := ⟨by decide, by intro v _ n hn; cases hn⟩
 example : NewVarsAvoidDims exE (append Fix.new true exE [] [exS]).2 := by
@@ -271,31 +493,32 @@ theorem C17_share_only_equal (a : Aux) (c : Cons) (ncdims : Option (List Name)) 
   have hm := List.mem_of_find?_eq_some h
   have hp := List.find?_some h
   simp only [Bool.and_eq_true, Bool.or_eq_true, beq_iff_eq] at hp
-  refine ⟨hm, hp.1.2, hp.2, ?_⟩
+  refine ⟨hm, hp.1.1.2, hp.2, ?_⟩
   intro d hd
   subst hd
-  simpa using hp.1.1
+  simpa using hp.1.1.1
 
 /-- … and the entry that `_write_netcdf_variable` makes names the variable it creates, with the
 contents and the dimensions of the construct (any mode but the dry run; no char storage). -/
 theorem C17_registered_is_created (fx : Fix) (ncvar : Name) (ncdims : List Name) (c : Cons) (extra : List (String × String))
     (hs : c.strlen = none) (r : Reg) (fs : FileSt) (hfree : ncvar ∉ fs.ds.varNames)
-    (hdims : ∀ d ∈ ncdims, d ∈ fs.ds.dimNames) :
+    (hdims : ∀ d ∈ ncdims, d ∈ fs.ds.dimNames) (hfit : misfit fs.ds.dims (ncdims.zip c.shape) = none) :
     let out := run fx .post (writeVar ncvar ncdims c extra) r fs
-    out.2.1.aux.seen = r.aux.seen ++ [⟨c.cid, c.kind, ncvar, some ncdims⟩] ∧
+    out.2.1.aux.seen = r.aux.seen ++ [⟨c.cid, c.kind, ncvar, some ncdims, c.shape⟩] ∧
     ∃ v ∈ out.2.2.ds.vars, v.name = ncvar ∧ v.cid = c.cid ∧ v.dims = ncdims := by
   have hd : ncdims.find? (fun d => !decide (d ∈ fs.ds.dimNames)) = none := by
     apply List.find?_eq_none.mpr
     intro d hd
     simp [hdims d hd]
-  simp [writeVar, modA, getMode, bind, Prog.bind, run, hs, regSeen, pure, hfree, hd]
+  simp [writeVar, modA, getMode, bind, Prog.bind, run, hs, regSeen, pure, hfree, hd, hfit]
 
-example : (run Fix.new .post (writeVar "lat" ["y", "x"] ⟨3, 1, [], none⟩ []) {} { ds := { dims := [⟨"y", 2, false⟩, ⟨"x", 3, false⟩] } }).2.2.ds.vars
+example : (run Fix.new .post (writeVar "lat" ["y", "x"] ⟨3, 1, [], none, [2, 3]⟩ []) {} { ds := { dims := [⟨"y", 2, false⟩, ⟨"x", 3, false⟩] } }).2.2.ds.vars
     = [⟨"lat", ["y", "x"], [], 3⟩] := by
   decide
 
-example : (alreadyInFile { seen := [⟨3, 1, "lat", some ["y", "x"]⟩] } ⟨3, 1, [], none⟩ (some ["y", "x"]) false).isSome = true ∧
-          (alreadyInFile { seen := [⟨3, 1, "lat", some ["y", "x"]⟩] } ⟨3, 1, [], none⟩ (some ["x", "y"]) false) = none := by
+example : (alreadyInFile { seen := [⟨3, 1, "lat", some ["y", "x"], [2, 3]⟩] } ⟨3, 1, [], none, [2, 3]⟩ (some ["y", "x"]) false).isSome = true ∧
+          (alreadyInFile { seen := [⟨3, 1, "lat", some ["y", "x"], [2, 3]⟩] } ⟨3, 1, [], none, [2, 3]⟩ (some ["x", "y"]) false) = none ∧
+          (alreadyInFile { seen := [⟨3, 1, "lat", some ["y", "x"], [2, 3]⟩] } ⟨3, 1, [], none, [3, 2]⟩ (some ["y", "x"]) false) = none := by
   decide
 
 /-- The code as it was never wrote `formula_terms` in the post-dry-run pass: for every owning
@@ -303,12 +526,12 @@ coordinate, every list of terms, every registry and dataset, the request leaves 
 (Appending example field 1 gave five fields: its domain ancillaries came back as fields.) -/
 theorem C17_old_formula_terms_never_written (owner z : Nat) (terms : List (String × Nat × List Nat)) (r : Reg) (fs : FileSt) :
     (run Fix.old .post (emitReq Fix.old (.formula owner z terms)) r fs).2.2 = fs := by
-  simp only [emitReq, getAux, getMode, bind, Prog.bind, run]
+  simp only [emitReq, writeScalars, getAux, getMode, bind, pure, Prog.bind, run, List.nil_append]
   split
   · rfl
   · split
-    · simp [run, Fix.old, Prog.bind, pure]
-      split <;> simp [run, Prog.bind]
+    · simp [run, Fix.old, Prog.bind]
+      split <;> simp [run]
     · rfl
 
 /-- The patched code writes it on a coordinate variable created by the same pass. -/
@@ -326,6 +549,37 @@ theorem C17_formula_terms_not_on_old_variable :
     let r : Reg := { aux := { keyVar := [(0, some "z"), (1, some "a_1")] } }
     let fs : FileSt := { ds := { vars := [⟨"z", ["z"], [("formula_terms", "a: a")], 1⟩, ⟨"a_1", ["z"], [], 2⟩] }, created := ["a_1"] }
     (run Fix.new .post (emitReq Fix.new (.formula 0 0 [("a", 1, [0])])) r fs).2.2 = fs := by
+  decide
+
+/-- Open finding `scalar-formula-term-parameter-written-again`: the dataset holds the scalar term `ptop` of a
+sigma coordinate; read back it is a 0-d *domain ancillary* (kind 2).  A field built by the user holds the
+same value as a *parameter* of the coordinate conversion (a `Data` object, kind 9): `_write_scalar_data` finds
+no registered construct of that class, writes `ptop_1`, and — the coordinate variable `sigma` being equal and
+shared, hence not one this pass created — no `formula_terms` attribute names it: an orphan variable, which a
+reader returns as an extra field. -/
+def exSigma : Ds :=
+  { dims := [⟨"sigma", 3, false⟩],
+    vars := [⟨"sigma", ["sigma"], [("formula_terms", "ptop: ptop ps: ps")], 1⟩, ⟨"ps", ["sigma"], [], 2⟩, ⟨"ptop", [], [], 3⟩,
+             ⟨"ta", ["sigma"], [], 4⟩] }
+def exSigmaRead : List FieldReq :=
+  [{ reqs := [.dimCoord 0 0 ⟨1, 0, [], none, [3]⟩ (some "sigma") none 3 false none, .domAnc 1 ⟨2, 2, [], none, [3]⟩ [0] "ps" none,
+              .domAnc 2 ⟨3, 2, [], none, []⟩ [] "ptop" none, .formula 0 0 [("ptop", 2, []), ("ps", 1, [0])],
+              .data ⟨4, 7, [], none, [3]⟩ "ta" [0] [] false] }]
+def exSigmaNew : FieldReq :=
+  { reqs := [.dimCoord 0 0 ⟨1, 0, [], none, [3]⟩ (some "sigma") none 3 false none, .domAnc 1 ⟨2, 2, [], none, [3]⟩ [0] "ps" none,
+             .formula 0 0 [("ps", 1, [0])] [("ptop", ⟨3, 9, [], none, []⟩)], .data ⟨5, 7, [], none, [3]⟩ "tb" [0] [] false] }
+
+theorem C17_scalar_parameter_written_again :
+    (append Fix.new true exSigma exSigmaRead [exSigmaNew]) =
+      (.ok, { exSigma with vars := exSigma.vars ++ [⟨"ptop_1", [], [], 3⟩, ⟨"tb", ["sigma"], [], 5⟩] }) := by
+  decide
+
+/-- … whereas the same field as the reader returns it (the term a domain ancillary) shares `ptop`. -/
+example : (append Fix.new true exSigma exSigmaRead
+            [{ exSigmaNew with reqs := [.dimCoord 0 0 ⟨1, 0, [], none, [3]⟩ (some "sigma") none 3 false none,
+                 .domAnc 1 ⟨2, 2, [], none, [3]⟩ [0] "ps" none, .domAnc 2 ⟨3, 2, [], none, []⟩ [] "ptop" none,
+                 .formula 0 0 [("ptop", 2, []), ("ps", 1, [0])], .data ⟨5, 7, [], none, [3]⟩ "tb" [0] [] false] }]) =
+      (.ok, { exSigma with vars := exSigma.vars ++ [⟨"tb", ["sigma"], [], 5⟩] }) := by
   decide
 
 /-- Properties left out of the appended data variables: the code as it was left out every
